@@ -71,7 +71,8 @@ Verdict(r) ==
      ELSE IF ~isasm /\ \E nm \in DOMAIN r.xprog.procs : \A i \in 1..Len(r.symtab) : r.symtab[i][1] # nm
           THEN base @@ [v |-> "bad", why |-> "a procedure of the source program is missing from the symbol table"]
      ELSE IF f.bad # "" THEN base @@ [v |-> "bad", why |-> "trace line " \o ToString(f.k) \o ": " \o f.bad]
-     ELSE IF f.s.st = "run" THEN base @@ [v |-> "bad", why |-> "trace ends before the program does"]
+     \* (a run that hexsim gives up on - an undefined instruction - may end with or without a line for that instruction)
+     ELSE IF f.s.st = "run" /\ Step(f.s, input).st # "undef" THEN base @@ [v |-> "bad", why |-> "trace ends before the program does"]
      ELSE IF isasm THEN base @@ [v |-> "ok", why |-> ""]
      ELSE IF xr.st # "exit" THEN base @@ [v |-> "skip", why |-> xr.st]
      ELSE IF (~xr.amb /\ f.ents # <<"main">> \o xr.calls)
